@@ -8,7 +8,7 @@ import traceback
 from .core import HarnessError
 
 
-def forkrun(fn, *args, env=None, timeout=120):
+def forkrun(fn, *args, env=None, timeout=120, crash_code=None):
     """Run fn(*args) in a forked child, return its JSON-serialisable result."""
     r, w = os.pipe()
     sys.stdout.flush()
@@ -53,6 +53,8 @@ def forkrun(fn, *args, env=None, timeout=120):
             signal.signal(signal.SIGALRM, old)
     _, status = os.waitpid(pid, 0)
     data = b"".join(chunks)
+    if not data and crash_code is not None and os.WIFEXITED(status) and os.WEXITSTATUS(status) == crash_code:
+        return {"crashed": True}
     if not data:
         raise HarnessError("forked child died without a result (status %r)" % (status,))
     res = json.loads(data.decode("utf-8"))
